@@ -29,8 +29,9 @@ VARIABLES now,      \* simulated time
           run,      \* [p, ok, val]: process currently executing and the outcome just delivered to it
           top,      \* top level: [mode, uk, ue, n]: "top" | "run" | "step", kind of until, until event, plan position
           log,      \* observable trace
-          script    \* choices made: script[p + 1] = ops executed by process p (p = 0: the top-level plan)
-kvars == <<now, agenda, seq, evs, procs, cur, run, top, log, script>>
+          script,   \* choices made: script[p + 1] = ops executed by process p (p = 0: the top-level plan)
+          res       \* shared resources by id: [kind, cap, users, putq, getq, level, items] (C06, C07)
+kvars == <<now, agenda, seq, evs, procs, cur, run, top, log, script, res>>
 
 URG == 0
 NRM == 1
@@ -58,9 +59,9 @@ KInit ==
   /\ now = 0 /\ agenda = {} /\ seq = 1 /\ evs = <<>> /\ procs = <<>>
   /\ cur = NoCur /\ run = NoRun
   /\ top = [mode |-> "top", uk |-> "none", ue |-> 0, n |-> 0]
-  /\ log = <<>> /\ script = <<<<>>>>
+  /\ log = <<>> /\ script = <<<<>>>> /\ res = <<>>
 
-Stepping == top.mode \in {"run", "step"}
+Stepping == top.mode \in {"run", "step", "steps"}
 Idle == cur.e = 0 /\ run.p = 0
 
 RemoveOne(s, x) ==
@@ -85,7 +86,7 @@ Pop ==
      /\ now' = a.t
      /\ cur' = [e |-> a.e, cbs |-> StopLast(evs[a.e].cbs)]
      /\ evs' = [evs EXCEPT ![a.e].st = "processed", ![a.e].cbs = <<>>]
-  /\ UNCHANGED <<seq, procs, run, top, log, script>>
+  /\ UNCHANGED <<seq, procs, run, top, log, script, res>>
 
 \* hand an outcome to process p: it becomes the running process
 Deliver(p, ok, val, lg) ==
@@ -131,6 +132,122 @@ CheckStep(E, ag, sq, c, ev) ==
               ag \cup {Entry(c, NRM, 0, sq)}, sq + 1>>
        ELSE <<[E EXCEPT ![c].cnt = n], ag, sq>>
 
+
+(* ------------------------------------------------------------------------ *)
+(* Shared resources (onl/sim/resources): request events are ordinary events  *)
+(* whose `kids` field holds <<resource, amount|item|priority|request, preempt,*)
+(* request time, usage_since, ->>; S = [E, ag, sq, R] is the part of the      *)
+(* state the queue scans rewrite.                                             *)
+(* ------------------------------------------------------------------------ *)
+ResKind == <<"res", "prio", "preempt", "cont", "store", "pstore", "fstore">>
+RemoveAt(q, i) == SubSeq(q, 1, i - 1) \o SubSeq(q, i + 1, Len(q))
+RemoveVal(q, x) == IF \E i \in 1..Len(q) : q[i] = x
+                   THEN RemoveAt(q, CHOOSE i \in 1..Len(q) : q[i] = x /\ \A j \in 1..(i - 1) : q[j] # x) ELSE q
+\* (priority, request time, preempting first)
+KeyLess(E, a, b) ==
+  LET ka == E[a].kids  kb == E[b].kids IN
+  \/ ka[2] < kb[2]
+  \/ ka[2] = kb[2] /\ ka[4] < kb[4]
+  \/ ka[2] = kb[2] /\ ka[4] = kb[4] /\ ka[3] > kb[3]
+\* queue insertion: arrival order, or stably sorted by key for priority resources
+InsertPut(E, q, e, kind) ==
+  IF kind \in {"prio", "preempt"}
+  THEN LET n == Cardinality({i \in 1..Len(q) : ~KeyLess(E, e, q[i])})      \* entries not ranked after e stay in front
+       IN SubSeq(q, 1, n) \o <<e>> \o SubSeq(q, n + 1, Len(q))
+  ELSE Append(q, e)
+Succeed(S, e, v) ==
+  [S EXCEPT !.E[e].st = "triggered", !.E[e].ok = TRUE, !.E[e].val = v,
+            !.ag = @ \cup {Entry(e, NRM, 0, S.sq)}, !.sq = @ + 1]
+\* sorted insertion for PriorityStore (smallest first; equal items are indistinguishable)
+InsertSorted(items, x) ==
+  LET n == Cardinality({i \in 1..Len(items) : items[i] <= x}) IN SubSeq(items, 1, n) \o <<x>> \o SubSeq(items, n + 1, Len(items))
+
+\* _do_put: <<S', proceed>>
+DoPut(S, r, e) ==
+  LET R == S.R[r]  k == S.E[e].kids IN
+  CASE R.kind \in {"res", "prio", "preempt"} ->
+         LET \* PreemptiveResource: evict the worst-ranked user if it ranks strictly worse than a preempting request
+             full == Len(R.users) >= R.cap
+             worst == IF R.users = <<>> THEN 0 ELSE
+                      CHOOSE i \in 1..Len(R.users) :
+                        \A j \in 1..Len(R.users) : j # i =>
+                           (KeyLess(S.E, R.users[j], R.users[i]) \/ (~KeyLess(S.E, R.users[i], R.users[j]) /\ j < i))
+             evict == R.kind = "preempt" /\ full /\ k[3] = 1 /\ worst # 0 /\ KeyLess(S.E, e, R.users[worst])
+             v == IF evict THEN R.users[worst] ELSE 0
+             ie == Len(S.E) + 1
+             S1 == IF evict
+                   THEN [S EXCEPT !.R[r].users = RemoveAt(@, worst),
+                                  !.E = Append(@, NewEv("intr", "triggered", FALSE,
+                                                        Val("preempted", S.E[e].pr, <<S.E[v].kids[5], r>>), TRUE,
+                                                        <<Cb("intr", 0)>>, S.E[v].pr, <<>>, FALSE)),
+                                  !.ag = @ \cup {Entry(ie, URG, 0, S.sq)}, !.sq = @ + 1]
+                   ELSE S
+         IN IF Len(S1.R[r].users) < R.cap
+            THEN <<Succeed([S1 EXCEPT !.R[r].users = Append(@, e), !.E[e].kids[5] = now], e, None), TRUE>>
+            ELSE <<S1, FALSE>>
+    [] R.kind = "cont" ->
+         IF R.cap - R.level >= k[2] THEN <<Succeed([S EXCEPT !.R[r].level = @ + k[2]], e, None), TRUE>> ELSE <<S, FALSE>>
+    [] R.kind \in {"store", "fstore"} ->
+         IF Len(R.items) < R.cap THEN <<Succeed([S EXCEPT !.R[r].items = Append(@, k[2])], e, None), TRUE>> ELSE <<S, FALSE>>
+    [] R.kind = "pstore" ->
+         IF Len(R.items) < R.cap THEN <<Succeed([S EXCEPT !.R[r].items = InsertSorted(@, k[2])], e, None), TRUE>> ELSE <<S, FALSE>>
+
+\* FilterStore filter f: 0 matches everything, f > 0 matches the item equal to f
+Match(f, x) == f = 0 \/ f = x
+DoGet(S, r, e) ==
+  LET R == S.R[r]  k == S.E[e].kids IN
+  CASE S.E[e].kind = "rel" -> <<Succeed([S EXCEPT !.R[r].users = RemoveVal(@, k[2])], e, None), TRUE>>
+    [] R.kind = "cont" ->
+         IF R.level >= k[2] THEN <<Succeed([S EXCEPT !.R[r].level = @ - k[2]], e, None), TRUE>> ELSE <<S, FALSE>>
+    [] R.kind \in {"store", "pstore"} ->
+         IF R.items # <<>> THEN <<Succeed([S EXCEPT !.R[r].items = Tail(@)], e, Val("item", Head(R.items), <<>>)), TRUE>>
+         ELSE <<S, FALSE>>
+    [] R.kind = "fstore" ->
+         IF \E i \in 1..Len(R.items) : Match(k[2], R.items[i])
+         THEN LET i == CHOOSE j \in 1..Len(R.items) : Match(k[2], R.items[j]) /\ \A m \in 1..(j - 1) : ~Match(k[2], R.items[m])
+              IN <<Succeed([S EXCEPT !.R[r].items = RemoveAt(@, i)], e, Val("item", R.items[i], <<>>)), TRUE>>
+         ELSE <<S, TRUE>>                           \* a getter whose filter matches nothing does not block later ones
+    [] OTHER -> <<S, FALSE>>
+
+\* _trigger_put / _trigger_get: serve the queue from its head, stop at the first request that cannot be served
+RECURSIVE ScanPut(_, _, _)
+ScanPut(S, r, idx) ==
+  IF idx > Len(S.R[r].putq) THEN S
+  ELSE LET e == S.R[r].putq[idx]
+           d == DoPut(S, r, e)
+           trig == d[1].E[e].st # "pending"
+           S2 == IF trig THEN [d[1] EXCEPT !.R[r].putq = RemoveAt(@, idx)] ELSE d[1]
+       IN IF d[2] THEN ScanPut(S2, r, IF trig THEN idx ELSE idx + 1) ELSE S2
+TriggerPut(S, r) == ScanPut(S, r, 1)
+RECURSIVE ScanGet(_, _, _)
+ScanGet(S, r, idx) ==
+  IF idx > Len(S.R[r].getq) THEN S
+  ELSE LET e == S.R[r].getq[idx]
+           d == DoGet(S, r, e)
+           trig == d[1].E[e].st # "pending"
+           S2 == IF trig THEN [d[1] EXCEPT !.R[r].getq = RemoveAt(@, idx)] ELSE d[1]
+       IN IF d[2] THEN ScanGet(S2, r, IF trig THEN idx ELSE idx + 1) ELSE S2
+TriggerGet(S, r) == ScanGet(S, r, 1)
+
+\* cancel(): a request that is still pending leaves its queue; the queue is then examined again, because the
+\* request behind it may be servable now (repaired behaviour, finding F1)
+CancelReq(S, e) ==
+  IF S.E[e].st # "pending" THEN S
+  ELSE LET r == S.E[e].kids[1] IN
+       IF S.E[e].kind = "get"
+       THEN TriggerGet([S EXCEPT !.R[r].getq = RemoveVal(@, e)], r)
+       ELSE TriggerPut([S EXCEPT !.R[r].putq = RemoveVal(@, e)], r)
+
+\* what a harness sees of the resources after a kernel step: per resource
+\* <<#users, users..., #queue, queue..., level, #items, items..., #get queue>>
+RECURSIVE ResStateFrom(_)
+ResStateFrom(i) ==
+  IF i > Len(res) THEN <<>>
+  ELSE LET R == res[i] IN
+       (<<Len(R.users)>> \o R.users \o <<Len(R.putq)>> \o R.putq \o <<R.level, Len(R.items)>> \o R.items \o <<Len(R.getq)>>)
+       \o ResStateFrom(i + 1)
+ResState == ResStateFrom(1)
+
 \* what run()/step() do when they return or raise
 Return(kind, v, lg) ==
   /\ top' = [top EXCEPT !.mode = "top", !.uk = "none", !.ue = 0]
@@ -165,6 +282,12 @@ NextCb ==
             /\ cur' = [cur EXCEPT !.cbs = rest]
             /\ log' = Append(log, L("P", e, evs[e].ok, evs[e].val))
             /\ UNCHANGED <<agenda, seq, evs, procs, run, top>>
+       [] cb.t \in {"tget", "tput"} ->            \* BaseResource._trigger_get / _trigger_put on resource cb.x
+            LET S0 == [E |-> evs, ag |-> agenda, sq |-> seq, R |-> res]
+                S1 == IF cb.t = "tget" THEN TriggerGet(S0, cb.x) ELSE TriggerPut(S0, cb.x)
+            IN /\ cur' = [cur EXCEPT !.cbs = rest]
+               /\ evs' = S1.E /\ agenda' = S1.ag /\ seq' = S1.sq /\ res' = S1.R
+               /\ UNCHANGED <<procs, run, top, log>>
        [] cb.t = "stop" ->
             \* StopSimulation.callback: run() returns the value, or re-raises the failure; the step is abandoned
             /\ cur' = NoCur
@@ -172,6 +295,7 @@ NextCb ==
                THEN Return("X", Val("StopSimulation", 0, <<>>), log)   \* a stale stop callback fires under step()
                ELSE Return(IF evs[e].ok THEN "RET" ELSE "X", evs[e].val, log)
             /\ UNCHANGED <<agenda, seq, evs, procs, run>>
+  /\ (Head(cur.cbs).t \notin {"tget", "tput"} => res' = res)
   /\ UNCHANGED <<now, script>>
 
 EndStep ==
@@ -182,20 +306,23 @@ EndStep ==
      ELSE IF top.mode = "step"
      THEN /\ top' = [top EXCEPT !.mode = "top"]
           /\ log' = Append(log, L("T", 0, TRUE, Val("peek", Peek(agenda), <<>>)))
+     ELSE IF top.mode = "steps"                    \* run by single steps, observing the resources after each
+     THEN /\ log' = Append(log, L("T", 0, TRUE, Val("peek", Peek(agenda), ResState)))
+          /\ UNCHANGED top
      ELSE UNCHANGED <<top, log>>
-  /\ UNCHANGED <<now, agenda, seq, evs, procs, run, script>>
+  /\ UNCHANGED <<now, agenda, seq, evs, procs, run, script, res>>
 
 \* run(): no events left
 RunDry ==
-  /\ top.mode = "run" /\ Idle /\ agenda = {}
+  /\ top.mode \in {"run", "steps"} /\ Idle /\ agenda = {}
   /\ IF top.uk = "none" THEN Return("RET", None, log)
      ELSE Return("X", Val("RuntimeError", 0, <<>>), log)          \* until-event never triggered
-  /\ UNCHANGED <<now, agenda, seq, evs, procs, cur, run, script>>
+  /\ UNCHANGED <<now, agenda, seq, evs, procs, cur, run, script, res>>
 \* step() on an empty schedule
 StepDry ==
   /\ top.mode = "step" /\ Idle /\ agenda = {}
   /\ Return("X", Val("EmptySchedule", 0, <<>>), log)
-  /\ UNCHANGED <<now, agenda, seq, evs, procs, cur, run, script>>
+  /\ UNCHANGED <<now, agenda, seq, evs, procs, cur, run, script, res>>
 
 (* ------------------------------------------------------------------------ *)
 (* API calls: Do(o) executed by the running process P (or by the top level,  *)
@@ -207,8 +334,9 @@ NOps == IF P = 0 THEN top.n ELSE procs[P].n
 Exists(e) == e \in 1..Len(evs)
 Noted(o) == script' = IF o.k = "spawn" THEN [script EXCEPT ![P + 1] = Append(@, o)] \o <<<<>>>>
                                        ELSE [script EXCEPT ![P + 1] = Append(@, o)]
-TopOnly == {"run", "step", "rununtil", "runev"}
-UserKinds == {"to", "ev", "proc", "cond"}
+TopOnly == {"run", "step", "steps", "rununtil", "runev"}
+ResOps == {"mkres", "request", "release", "cancel", "withexit", "put", "get"}
+UserKinds == {"to", "ev", "proc", "cond", "req", "rel", "put", "get"}
 \* an op that names something that does not exist (yet) has no effect (logged as Skip)
 Valid(o) ==
   CASE o.k = "yield" -> P # 0 /\ Exists(o.a) /\ evs[o.a].kind \in UserKinds /\ o.a # procs[P].pe
@@ -217,6 +345,9 @@ Valid(o) ==
     [] o.k = "cond" -> /\ \A i \in 1..Len(o.s) : Exists(o.s[i]) /\ evs[o.s[i]].kind \in UserKinds
                        /\ \A i, j \in 1..Len(o.s) : i # j => o.s[i] # o.s[j]
     [] o.k = "runev" -> Exists(o.a) /\ evs[o.a].kind \in UserKinds
+    [] o.k \in {"request", "put", "get"} -> o.a \in 1..Len(res)
+    [] o.k \in {"release", "withexit"} -> Exists(o.a) /\ evs[o.a].kind = "req"
+    [] o.k = "cancel" -> Exists(o.a) /\ evs[o.a].kind \in {"req", "put", "get"}
     [] OTHER -> TRUE
 Refused(type) == Append(log, L("E", P, FALSE, Val(type, 0, <<>>)))
 
@@ -241,6 +372,7 @@ YieldOn(e, c, E, pr, ag, sq, lg) ==
 Do(o) ==
   /\ Noted(o)
   /\ UNCHANGED <<now, cur>>
+  /\ (o.k \notin ResOps => res' = res)
   /\ (o.k \notin TopOnly => top' = IF P = 0 THEN [top EXCEPT !.n = @ + 1] ELSE top)
   /\ CASE o.k = "timeout" ->                       \* env.timeout(d, value) + probe; not yielded
             LET e == Len(evs) + 1 IN
@@ -322,6 +454,53 @@ Do(o) ==
             /\ P = 0
             /\ top' = [top EXCEPT !.mode = "step", !.n = @ + 1]
             /\ UNCHANGED <<agenda, seq, evs, procs, run, log>>
+       [] o.k = "steps" ->
+            /\ P = 0
+            /\ top' = [top EXCEPT !.mode = "steps", !.uk = "none", !.ue = 0, !.n = @ + 1]
+            /\ UNCHANGED <<agenda, seq, evs, procs, run, log>>
+       (* ---- shared resources ---- *)
+       [] o.k = "mkres" ->                         \* s = <<kind code>>; a = capacity; b = initial level
+            /\ res' = Append(res, [kind |-> ResKind[o.s[1]], cap |-> o.a, users |-> <<>>, putq |-> <<>>, getq |-> <<>>,
+                                   level |-> o.b, items |-> <<>>, init |-> o.b])
+            /\ procs' = Bump(procs) /\ UNCHANGED <<agenda, seq, evs, run, log>>
+       [] o.k \in {"request", "put"} ->            \* a = resource; request: b = priority, c = preempt; put: b = amount / item
+            LET r == o.a  e == Len(evs) + 1 IN
+            IF o.k = "put" /\ res[r].kind = "cont" /\ o.b <= 0
+            THEN /\ log' = Refused("ValueError") /\ procs' = Bump(procs) /\ UNCHANGED <<agenda, seq, evs, run, res>>
+            ELSE LET info == <<r, o.b, o.c, now, -1, 0>>          \* resource, amount|item|priority, preempt, time, usage_since, -
+                     E0 == Append(evs, NewEv(IF o.k = "request" THEN "req" ELSE "put", "pending", TRUE, None, FALSE,
+                                             <<Cb("tget", r)>>, P, info, FALSE))
+                     R0 == [res EXCEPT ![r].putq = InsertPut(E0, @, e, res[r].kind)]
+                     S1 == TriggerPut([E |-> E0, ag |-> agenda, sq |-> seq, R |-> R0], r)
+                 IN /\ evs' = [S1.E EXCEPT ![e].cbs = Append(@, Cb("probe", e))]
+                    /\ agenda' = S1.ag /\ seq' = S1.sq /\ res' = S1.R
+                    /\ procs' = Bump(procs) /\ UNCHANGED <<run, log>>
+       [] o.k \in {"release", "get"} ->            \* release: a = request id; get: a = resource, b = amount / filter
+            LET r == IF o.k = "release" THEN evs[o.a].kids[1] ELSE o.a
+                e == Len(evs) + 1 IN
+            IF o.k = "get" /\ res[r].kind = "cont" /\ o.b <= 0
+            THEN /\ log' = Refused("ValueError") /\ procs' = Bump(procs) /\ UNCHANGED <<agenda, seq, evs, run, res>>
+            ELSE LET info == <<r, IF o.k = "release" THEN o.a ELSE o.b, 0, now, -1, 0>>
+                     E0 == Append(evs, NewEv(IF o.k = "release" THEN "rel" ELSE "get", "pending", TRUE, None, FALSE,
+                                             <<Cb("tput", r)>>, P, info, FALSE))
+                     R0 == [res EXCEPT ![r].getq = Append(@, e)]
+                     S1 == TriggerGet([E |-> E0, ag |-> agenda, sq |-> seq, R |-> R0], r)
+                 IN /\ evs' = [S1.E EXCEPT ![e].cbs = Append(@, Cb("probe", e))]
+                    /\ agenda' = S1.ag /\ seq' = S1.sq /\ res' = S1.R
+                    /\ procs' = Bump(procs) /\ UNCHANGED <<run, log>>
+       [] o.k = "cancel" ->                        \* a = a pending request / put / get: leave the queue, re-examine it
+            LET S1 == CancelReq([E |-> evs, ag |-> agenda, sq |-> seq, R |-> res], o.a) IN
+            /\ evs' = S1.E /\ agenda' = S1.ag /\ seq' = S1.sq /\ res' = S1.R
+            /\ procs' = Bump(procs) /\ UNCHANGED <<run, log>>
+       [] o.k = "withexit" ->                      \* leaving `with resource.request() as req:` = cancel + release
+            LET r == evs[o.a].kids[1]  e == Len(evs) + 1
+                S0 == CancelReq([E |-> evs, ag |-> agenda, sq |-> seq, R |-> res], o.a)
+                E0 == Append(S0.E, NewEv("rel", "pending", TRUE, None, FALSE, <<Cb("tput", r)>>, P, <<r, o.a, 0, now, -1, 0>>, FALSE))
+                R0 == [S0.R EXCEPT ![r].getq = Append(@, e)]
+                S1 == TriggerGet([E |-> E0, ag |-> S0.ag, sq |-> S0.sq, R |-> R0], r)
+            IN /\ evs' = S1.E      \* no probe: the release event of a with-block is not visible to the caller
+               /\ agenda' = S1.ag /\ seq' = S1.sq /\ res' = S1.R
+               /\ procs' = Bump(procs) /\ UNCHANGED <<run, log>>
        [] o.k = "rununtil" ->                      \* run(until = number a)
             /\ P = 0
             /\ IF o.a <= now
@@ -348,7 +527,7 @@ Do(o) ==
 Uncaught ==
   /\ P # 0 /\ ~run.ok /\ procs[P].catch = 0
   /\ ProcEnd(P, FALSE, run.val, evs, procs)
-  /\ UNCHANGED <<now, cur, top, log, script>>
+  /\ UNCHANGED <<now, cur, top, log, script, res>>
 CanAct == P # 0 /\ (run.ok \/ procs[P].catch = 1)
 TopCanAct == P = 0 /\ top.mode = "top" /\ cur.e = 0
 
